@@ -27,6 +27,19 @@ theorem so_idle (hI : SInv cfg s) (hpc : th.pc = .idle) : StepOk cfg s t (thStep
     simp only [TInvSO]
     exact ⟨⟨fun hk => by simp at hk, fun hk => by simp at hk⟩, trivial⟩
   · exact stepok_local hI rfl rfl rfl (by simp) (by simpa [TInvSO] using trinv_start hI.good)
+  · exact stepok_local hI rfl rfl rfl (by simp) (by simp [TInvSO])
+  · exact stepok_local hI rfl rfl rfl (by simp) (by simp [TInvSO])
+  · split
+    · refine stepok_local hI rfl rfl rfl ?_ (by simp [TInvSO, Th.finish])
+      intro r hr
+      simp only [Option.some.injEq] at hr
+      subst hr
+      exact ⟨trivial, rfl⟩
+    · refine stepok_local hI rfl rfl rfl ?_ (by simp [TInvSO, Th.finish])
+      intro r hr
+      simp only [Option.some.injEq] at hr
+      subst hr
+      exact ⟨trivial, rfl⟩
 
 theorem so_ldBc (hI : SInv cfg s) (hpc : th.pc = .ldBc) (h : OpOk s.L th ∧ th.stack = []) :
     StepOk cfg s t (thStep cfg s t th) := by
@@ -75,6 +88,12 @@ theorem so_gb2 (hI : SInv cfg s) (hpc : th.pc = .gb2) (h : OpOk s.L th ∧ BOk t
       obtain ⟨x, hx, hkx⟩ := h.1.2 hkind hm
       exact ⟨x, mem_aft_of_lt (f := fun a => (s.L.key a).ok) hI.good.sorted hpm hx (by rw [hkx]; exact hlt), hkx⟩
     · -- touch
+      refine stepok_local hI rfl rfl rfl ?_ (by simp [TInvSO, Th.finish])
+      intro r hr
+      simp only [Option.some.injEq] at hr
+      subst hr
+      exact ⟨trivial, rfl⟩
+    · -- (sizing calls never get here)
       refine stepok_local hI rfl rfl rfl ?_ (by simp [TInvSO, Th.finish])
       intro r hr
       simp only [Option.some.injEq] at hr
@@ -331,24 +350,82 @@ theorem so_ldBc2 (hI : SInv cfg s) (hpc : th.pc = .ldBc2) : StepOk cfg s t (thSt
   simp only [hpc]
   split
   · rename_i hc
+    simp only [Bool.and_eq_true, decide_eq_true_eq] at hc
     refine stepok_local hI rfl rfl rfl (by simp) ?_
     simp only [TInvSO]
-    exact ⟨hc.2, hI.bc⟩
+    rw [gen_adjustNew]
+    exact double_bcok hI.bc hc.2
   · exact stepok_local hI rfl rfl rfl (by simp) (by simp [TInvSO, Th.finish])
 
-theorem so_casBc (hI : SInv cfg s) (hpc : th.pc = .casBc) (h : th.cur < 2 ^ 63 ∧ BcOk th.cur) :
+theorem sized_res {L : LSt} {o : Option Res} {w : String} (ho : o = some (.sized w) ∨ o = none) :
+    ∀ r, o = some r → ResOk L t r ∧ succNode (t, r) = none := by
+  intro r hr
+  rcases ho with ho | ho
+  · rw [ho] at hr
+    simp only [Option.some.injEq] at hr
+    subst hr
+    exact ⟨trivial, rfl⟩
+  · rw [ho] at hr; simp at hr
+
+theorem kind_res (th : Th) (w : String) :
+    (if th.kind = Kind.size then some (CasList.Res.sized w) else none) = some (CasList.Res.sized w) ∨
+    (if th.kind = Kind.size then some (CasList.Res.sized w) else (none : Option Res)) = none := by
+  split
+  · exact Or.inl rfl
+  · exact Or.inr rfl
+
+theorem so_casBc (hI : SInv cfg s) (hpc : th.pc = .casBc) (h : BcOk th.nec) :
     StepOk cfg s t (thStep cfg s t th) := by
   unfold thStep
   simp only [hpc]
   split
-  · refine ⟨trivial, by simp [TInvSO, Th.finish], fun _ hh => hh, hI.table, ?_, by simp, by simp [LSt.apply, SplitOrder.addLog]⟩
-    obtain ⟨k, hk, hc⟩ := h.2
-    refine ⟨k + 1, ?_, by simp [hc, Nat.pow_succ, Nat.mul_comm]⟩
-    have h1 := h.1
-    rw [hc] at h1
-    have : k < 63 := (Nat.pow_lt_pow_iff_right (by omega)).mp h1
-    omega
-  · exact stepok_local hI rfl rfl rfl (by simp) (by simp [TInvSO, Th.finish])
+  · refine ⟨trivial, by simp [TInvSO, Th.finish], fun _ hh => hh, hI.table, h, ?_, ?_⟩
+    · intro r hr
+      exact (sized_res (kind_res th "rehash") r hr).1
+    · simp only [LSt.apply]
+      rcases kind_res th "rehash" with hk | hk <;> simp [hk, SplitOrder.addLog, succNode]
+  · exact stepok_local hI rfl rfl rfl (sized_res (kind_res th "rehash")) (by simp [TInvSO, Th.finish])
+
+theorem so_rhLd (hI : SInv cfg s) (hpc : th.pc = .rhLd) : StepOk cfg s t (thStep cfg s t th) := by
+  unfold thStep
+  simp only [hpc]
+  split
+  · refine stepok_local hI rfl rfl rfl (by simp) ?_
+    simp only [TInvSO]
+    rw [gen_rehashNew]
+    exact gen_roundUp_pow2 _
+  · exact stepok_local hI rfl rfl rfl (sized_res (Or.inl rfl)) (by simp [TInvSO, Th.finish])
+
+theorem so_rvLd (hI : SInv cfg s) (hpc : th.pc = .rvLd) : StepOk cfg s t (thStep cfg s t th) := by
+  unfold thStep
+  simp only [hpc]
+  split
+  · exact stepok_local hI rfl rfl rfl (sized_res (Or.inl rfl)) (by simp [TInvSO, Th.finish])
+  · rename_i nec hl
+    split
+    · exact stepok_local hI rfl rfl rfl (sized_res (Or.inl rfl)) (by simp [TInvSO, Th.finish])
+    · rename_i h0
+      refine stepok_local hI rfl rfl rfl (by simp) ?_
+      simp only [TInvSO]
+      have := Sizing.reserveLoop_isbc _ _ _ _ _ _ (by rw [gen_reserveInit]; exact isbc_of_bcok hI.bc) hl
+      exact bcok_of_isbc this h0
+
+theorem so_rvCas (hI : SInv cfg s) (hpc : th.pc = .rvCas) (h : BcOk th.nec) :
+    StepOk cfg s t (thStep cfg s t th) := by
+  unfold thStep
+  simp only [hpc]
+  split
+  · refine ⟨trivial, by simp [TInvSO, Th.finish], fun _ hh => hh, hI.table, ?_, ?_, ?_⟩
+    · simp only [Option.getD_some, gen_reserveDesired]; exact h
+    · intro r hr
+      simp only [Option.some.injEq] at hr
+      subst hr; trivial
+    · simp [LSt.apply, SplitOrder.addLog, succNode]
+  · split
+    · exact stepok_local hI rfl rfl rfl (sized_res (Or.inl rfl)) (by simp [TInvSO, Th.finish])
+    · refine stepok_local hI rfl rfl rfl (by simp) ?_
+      simp only [TInvSO, hpc]
+      exact h
 
 theorem so_fwalk (hI : SInv cfg s) (hpc : th.pc = .fwalk) (h : FInv s.L th.k th.prev th.must) :
     StepOk cfg s t (thStep cfg s t th) := by
@@ -421,6 +498,9 @@ theorem so_step_ok (hI : SInv cfg s) (h : TInvSO cfg s.L s.slot t th) : StepOk c
   · exact so_szAdd hI hpc
   · exact so_ldBc2 hI hpc
   · exact so_casBc hI hpc h
+  · exact so_rhLd hI hpc
+  · exact so_rvLd hI hpc
+  · exact so_rvCas hI hpc h
   · exact so_fwalk hI hpc h
   · exact so_twalk hI hpc h
 
